@@ -240,7 +240,7 @@ Section ExportModel.
     end.
   Definition round_ok (d : nat) (r : round) : Prop :=
     let d' := ev_dim d (r_ev r) in
-    ev_ok d (r_ev r) /\ d' <= 5 /\ (n0 <? r_T r) = true /\ length (r_sizes r) = d' /\ length (r_mig r) = (d' * (d' - 1))%nat
+    ev_ok d (r_ev r) /\ d' <= 5 /\ (n0 <? r_T r) = true /\ length (r_sizes r) = d' /\ length (r_mig r) = length (offdiag d')
     /\ (r_const r = false -> Forall (fun s => snd s = false -> (fst (fst s) =? snd (fst s)) = false) (r_sizes r)).
   Fixpoint rounds_ok (d : nat) (rs : list round) : Prop :=
     match rs with
